@@ -152,6 +152,61 @@ theorem sortNat_of_sorted_canon (l : List Text) (h : ∀ x ∈ l, Canon x) (hs :
     sortNat l = l :=
   C10.sortNat_of_sorted l (totalOn_of_canon h) hs
 
+theorem sortNat_unique_canon (l l' : List Text) (h : ∀ x ∈ l, Canon x) (hp : l'.Perm l)
+    (hs : allPairsOrdered l' = true) : l' = sortNat l :=
+  C10.sortNat_unique l l' (totalOn_of_canon h) hp hs
+
+/-- for canonical ids the sort step of the model's `examineSnaps` never answers `.unsupportedOrder` -/
+theorem sort_supported_canon (l : List Text) (h : ∀ x ∈ l, Canon x) :
+    (allPairsOrdered (sortNat l) && pairwiseComparable (sortNat l)) = true :=
+  C10.sort_supported l (totalOn_of_canon h)
+
+/-! ## the slots of one test are sorted by their ordinals, numerically -/
+
+theorem lexLt_append_left : ∀ (p a b : List Tok), lexLt (p ++ a) (p ++ b) = lexLt a b
+  | [], _, _ => rfl
+  | t :: p, a, b => by
+    simp only [List.cons_append]
+    rw [lexLt_cons_same, lexLt_append_left p a b]
+
+theorem key_append {c : Byte} (hc : isDigit c = false) (a b : Text) : key (a ++ c :: b) = key a ++ key (c :: b) := by
+  simp [key, toks_append hc b _ a (Nat.le_refl _)]
+
+theorem key_run {ds : Text} (hd : AllDig ds) (hne : ds ≠ []) : key ds = [.num (val ds)] := by
+  cases ds with
+  | nil => exact absurd rfl hne
+  | cons d rest =>
+    rw [key_digit rest (hd d (by simp)), takeWhile_allDig hd.tail, dropWhile_allDig hd.tail, key_nil]
+
+theorem val_natToText (k : Nat) : val (natToText k) = k := by
+  obtain ⟨d, ds, h1, _, _, h4⟩ := natToTextAux_canon (k + 1) k [] (by omega)
+  have e : natToText k = d :: ds := by simpa [natToText] using h1
+  rw [e, h4]
+
+theorem natToText_ne_nil' (k : Nat) : natToText k ≠ [] := by
+  obtain ⟨d, ds, h1, _, _, _⟩ := natToTextAux_canon (k + 1) k [] (by omega)
+  have e : natToText k = d :: ds := by simpa [natToText] using h1
+  rw [e]; simp
+
+theorem key_tid (name : Text) (k : Nat) (hk : k < 10 ^ 19) :
+    key (tid name k) = key name ++ [.byte 32, .byte 45, .byte 32, .num k] := by
+  have h : tid name k = name ++ 32 :: (45 :: 32 :: natToText k) := by simp [tid]
+  rw [h, key_append (by decide), key_byte _ (by decide), key_byte _ (by decide), key_byte _ (by decide),
+    key_run (natToText_canonRun k hk).1 (natToText_ne_nil' k), val_natToText]
+
+/-- **`[T - 2]` stands before `[T - 10]`**: two slots of the same test compare as their ordinals do, for every
+    canonical test name and all ordinals below 10^19 (so a sorted file lists a test's snapshots in call order) -/
+theorem natLt_tid_same {name : Text} (hn : Canon name) {j k : Nat} (hj : j < 10 ^ 19) (hk : k < 10 ^ 19) :
+    natLt (tid name j) (tid name k) = decide (j < k) := by
+  rw [natLt_eq_lexLt (canon_tid hn hj) (canon_tid hn hk), key_tid name j hj, key_tid name k hk, lexLt_append_left,
+    lexLt_cons_same, lexLt_cons_same, lexLt_cons_same]
+  simp only [lexLt, tokLt]
+  by_cases h : j < k
+  · simp [h]
+  · by_cases h2 : k < j
+    · simp [h, h2]
+    · simp [h, h2]
+
 /-! ## non-vacuity and sharpness -/
 
 -- "TestA/x#2" and "Test12/b_7": canonical, by running the checker in the kernel
